@@ -177,3 +177,5 @@ Scheme ev_ind' := Minimality for ev Sort Prop
   with evproc_ind' := Minimality for evproc Sort Prop
   with evdefs_ind' := Minimality for evdefs Sort Prop
   with evbody_ind' := Minimality for evbody Sort Prop.
+
+Combined Scheme ev_mutind from ev_ind', evs_ind', app_ind', evproc_ind', evdefs_ind', evbody_ind'.
